@@ -76,3 +76,29 @@ Lemma string_ids_witness :
   /\ map snd (order_by_digits subm) = [1; 2; 0]%nat
   /\ map snd (order_by_id (map (fun p => (Z.of_nat (digits_value (fst p)), snd p)) subm)) = [0; 1; 2]%nat.
 Proof. vm_compute. repeat split; reflexivity. Qed.
+
+(* one call on a long-lived ensemble: the jobs of the call carry the job numbers base, base+1, ... in member order
+   (base = number of jobs submitted by the earlier calls) *)
+Fixpoint numbered {A} (base : Z) (xs : list A) : list (Z * A) :=
+  match xs with [] => [] | x :: t => (base, x) :: numbered (base + 1) t end.
+
+Lemma numbered_lb {A} (xs : list A) : forall base k, In k (map fst (numbered base xs)) -> base <= k.
+Proof.
+  induction xs as [|x t IH]; intros base k H; [destruct H|]. cbn [numbered map fst] in H.
+  destruct H as [<-|H]; [lia|]. apply IH in H. lia.
+Qed.
+
+Lemma numbered_sorted {A} (xs : list A) : forall base, StronglySorted Z.lt (map fst (numbered base xs)).
+Proof.
+  induction xs as [|x t IH]; intros base; cbn [numbered map fst]; constructor; [apply IH|].
+  rewrite Forall_forall. intros k Hk. apply numbered_lb in Hk. lia.
+Qed.
+
+Lemma numbered_snd {A} (xs : list A) : forall base, map snd (numbered base xs) = xs.
+Proof. induction xs as [|x t IH]; intros base; cbn [numbered map snd]; [reflexivity|]. rewrite IH. reflexivity. Qed.
+
+Lemma order_by_id_calls {A} (base : Z) (xs : list A) (done : list (Z * A)) :
+  Permutation done (numbered base xs) -> map snd (order_by_id done) = xs.
+Proof.
+  intros Hp. rewrite (order_by_id_restores A (numbered base xs) done (numbered_sorted xs base) Hp). apply numbered_snd.
+Qed.
